@@ -1,5 +1,9 @@
 import LsModel.Txn
-/- state the driver keeps between protocol lines (stateful ops reset what they use) -/
+import LsModel.CleanerOracle
+/-
+  State the driver threads from one protocol line to the next. One field per stateful component;
+  stateless operations ignore it.
+-/
 namespace Ls.Drv
 open Ls
 
@@ -8,7 +12,11 @@ structure Inst where
   env : Txn.Env
 
 structure DrvState where
+  cleaner : Ls.Cleaner.Drv := {}
   envs : List (String × Inst) := []
+
+/-- a stateful handler: `none` = not my op / malformed arguments -/
+abbrev HandlerS := String → List String → DrvState → Option (DrvState × String)
 
 def DrvState.getEnv (s : DrvState) (id : String) : Option Inst := (s.envs.find? (·.1 == id)).map (·.2)
 def DrvState.setEnv (s : DrvState) (id : String) (i : Inst) : DrvState :=
